@@ -3,7 +3,7 @@ LEVELS = {
  "C01": "other",
  "C02": "other",
  "C03": "other",
- "C04": "exploration",
+ "C04": "other",
  "C05": "exploration",
  "C06": "other",
  "C07": "other",
